@@ -140,6 +140,7 @@ def run(ctx):
     # names bound by import statements inside function bodies: implementation, model (DdsModel/Imports.lean), CPython
     c01s.run_imports(ctx, res, thorough)
     c01s.run_imports_in_package_init(ctx, res, thorough)
+    c01s.run_lazy_submodule(ctx, res, thorough)
     # the code lives in IPython cells
     c01s.run_notebook(ctx, res, thorough)
     # the order in which the calls of an expression are analysed
